@@ -87,7 +87,7 @@ fn source_flag(id: &Option<String>, srcid: &str) -> i64 {
 ///   (-1)                      panic
 /// idmode: which identifiers the caller supplies besides the transposition id: 0 all (every target
 /// side, the resegmentation), 1 none (the library generates them), 2 only the first target side
-fn transpose_obs(store: &mut AnnotationStore, srcid: &str, mode: i64, viaid: &str, side: i64, newid: &str, tprefix: &str, nsides: usize, idmode: i64) -> Sx {
+fn transpose_obs(store: &mut AnnotationStore, srcid: &str, srch: Option<AnnotationHandle>, mode: i64, viaid: &str, side: i64, newid: &str, tprefix: &str, nsides: usize, idmode: i64) -> Sx {
     let before = snapshot(store);
     let config = TransposeConfig {
         source_side: if side < 0 { TranspositionSide::Auto } else { TranspositionSide::ByIndex(side as usize) },
@@ -104,8 +104,12 @@ fn transpose_obs(store: &mut AnnotationStore, srcid: &str, mode: i64, viaid: &st
     };
     let r = guard(|| {
         let via = store.annotation(viaid).expect("via");
-        let source = store.annotation(srcid).expect("source");
-        if mode == 0 {
+        // a source annotation without public id is reached through its handle
+        let source = match srch {
+            Some(h) => store.annotation(h).expect("source"),
+            None => store.annotation(srcid).expect("source"),
+        };
+        if mode == 0 || mode == 2 {
             source.transpose(&via, config)
         } else {
             let tset = source.textselectionset().expect("source text selection set");
@@ -178,7 +182,7 @@ impl Ctx {
     ///   kind 0: simple transposition, sides = ((res b e) ...)        one fragment per side
     ///   kind 1: complex transposition, sides = (((res b e) ...) ...) one annotation per side
     ///   source annotation "src" over resource res with the listed ranges (in that order)
-    ///   side = -1: TranspositionSide::Auto, i: ByIndex(i); mode 0: transpose the annotation, 1: its text selection set;
+    ///   side = -1: TranspositionSide::Auto, i: ByIndex(i); mode 0: transpose the annotation, 1: its text selection set, 2: the annotation, which has no public id;
     ///   optional third element: selector of a multi-range source 0 Directional (default), 1 Multi, 2 Composite;
     ///   optional fourth: identifiers the caller leaves to the library: 0 only that of a copied/resegmented source
     ///   (default), 1 also those of every target side and of the resegmentation, 2 as 1 but the first target side is named
@@ -236,15 +240,33 @@ impl Ctx {
                 return skip(4);
             }
         }
-        if srcranges.is_empty() || store.annotate(AnnotationBuilder::new().with_id("src").with_target(target_of_kind(&srcranges, selkind)).with_data("s", "k", "v")).is_err() {
+        if srcranges.is_empty() {
             return skip(5);
         }
+        // mode 2: the source annotation has no public id (the store default: ids are not generated)
+        let srcbuilder = AnnotationBuilder::new().with_target(target_of_kind(&srcranges, selkind)).with_data("s", "k", "v");
+        let srch: Option<AnnotationHandle> = match store.annotate(if mode == 2 { srcbuilder } else { srcbuilder.with_id("src") }) {
+            Ok(h) => {
+                if mode == 2 {
+                    if store.annotation(h).map(|x| x.id().is_some()).unwrap_or(true) {
+                        return skip(6);
+                    }
+                    Some(h)
+                } else {
+                    None
+                }
+            }
+            Err(_) => return skip(5),
+        };
 
         // what the API shows of the input: this is what the model gets
         let (via_sx, src_sx) = {
             let via = store.annotation("T").unwrap();
             let (complex, sides) = read_sides(&via);
-            let src = store.annotation("src").unwrap();
+            let src = match srch {
+                Some(h) => store.annotation(h).unwrap(),
+                None => store.annotation("src").unwrap(),
+            };
             let sr = read_tsels(&src);
             (
                 l(vec![b(complex), l(sides.iter().map(|(_, f)| frags_sx(f)).collect())]),
@@ -252,7 +274,7 @@ impl Ctx {
             )
         };
 
-        let fwd = transpose_obs(&mut store, "src", mode, "T", side, "T2", "t", nsides, idmode);
+        let fwd = transpose_obs(&mut store, "src", srch, mode, "T", side, "T2", "t", nsides, idmode);
         let mut back_idx = Vec::new();
         let mut back_auto = Vec::new();
         if fwd.nth(0).int() == 1 {
@@ -262,8 +284,8 @@ impl Ctx {
                 sides.iter().enumerate().filter(|(_, (id, _))| source_flag(id, "src") == 0).map(|(j, (id, _))| (j, id.clone().unwrap_or_default())).collect()
             };
             for (j, id) in &ids {
-                back_idx.push(transpose_obs(&mut store, id, 0, "T2", *j as i64, &format!("T3i{}", j), &format!("bi{}_", j), nsides, idmode));
-                back_auto.push(transpose_obs(&mut store, id, 0, "T2", -1, &format!("T3a{}", j), &format!("ba{}_", j), nsides, idmode));
+                back_idx.push(transpose_obs(&mut store, id, None, 0, "T2", *j as i64, &format!("T3i{}", j), &format!("bi{}_", j), nsides, idmode));
+                back_auto.push(transpose_obs(&mut store, id, None, 0, "T2", -1, &format!("T3a{}", j), &format!("ba{}_", j), nsides, idmode));
             }
         }
         let obs = vec![fwd.clone(), l(back_idx), l(back_auto)];
@@ -523,13 +545,13 @@ pub fn generate(out: &mut Out, tier: &str, seed: u64) {
             let rs = all_ranges(tl);
             for r in &rs {
                 for side in -1..=nsides {
-                    for mode in 0..2 {
+                    for mode in 0..3 {
                         emit(out, req_sx(&lay.texts, lay.kind, &lay.sides, res, &[*r], side, mode), lay.name);
                     }
                 }
                 // identifiers of the transposed annotations (and of the resegmentation) left to the library
                 for idmode in 1..=2 {
-                    for mode in 0..2 {
+                    for mode in 0..3 {
                         emit(out, req_sx_ki(&lay.texts, lay.kind, &lay.sides, res, &[*r], -1, mode, 0, idmode), lay.name);
                         out.count("generated_ids");
                         if nsides >= 3 {
@@ -555,7 +577,14 @@ pub fn generate(out: &mut Out, tier: &str, seed: u64) {
         for _ in 0..3 {
             let (res, ranges) = random_source(&mut rng, &texts, &sides);
             let side = if rng.chance(3, 4) { -1 } else { rng.below(sides.len() + 1) as i64 };
-            let mode = if rng.chance(3, 4) { 0 } else { 1 };
+            let mode = match rng.below(4) {
+                0 | 1 => 0,
+                2 => 1,
+                _ => 2,
+            };
+            if mode == 2 {
+                out.count("source_without_id");
+            }
             let selkind = if ranges.len() > 1 && rng.chance(1, 3) { 1 + rng.below(2) as i64 } else { 0 };
             if selkind != 0 {
                 out.count("source_multi_or_composite");
@@ -572,6 +601,6 @@ pub fn generate(out: &mut Out, tier: &str, seed: u64) {
     }
 }
 
-pub const RULE: &str = "exhaustive: 17 fixed layouts of 1-3 texts sharing fragments (adjacent fragments, sides listing them reversed / re-ordered, fragments re-ordered in the other text, three sides with two in one resource, zero-width fragments, overlapping fragments, gaps, both sides in one resource, a side spanning two resources, overlapping sides, simple transpositions with 2 and 3 sides, four ill-formed ones) x every resource as source x every single range 0<=b<=e<=len x TranspositionSide Auto / every index / one beyond x annotation or text selection set, every single range also with the identifiers of the transposed annotations / the resegmentation left to the library (all of them, or all but the first target side), plus all ordered pairs of ranges over a position grid (every position in the thorough tier); random: texts over small alphabets (incl. multi-byte) cut into up to 5 fragments with gaps, now and then a zero-width or overlapping fragment, 1-2 derived texts (re-ordered, filler inserted, sometimes appended to the same resource), sides listed in random order, 1-3 source ranges of every position class (inside one fragment, between two fragments, partly outside, anywhere), multi-range sources as Directional, Multi or Composite selector. Half of the random cases leave identifiers to the library. Per case: transpose, every returned builder added with annotate() (all must be accepted as that many new annotations with pairwise distinct ids), new transposition read back through annotations_in_targets/textselections, store compared before/after transpose(), then every target side transposed back over the new transposition with ByIndex and with Auto. The property predicate (piecewise equal text on all sides, source side = the source cut into consecutive pieces, inside the text, right resources, coverage, unchanged store, exact offsets on the way back) is evaluated by the extracted specification on what the implementation returned; the model's answer is compared with the implementation's. Non-trivial = the forward transposition succeeded; distinct = distinct request lines.";
+pub const RULE: &str = "exhaustive: 17 fixed layouts of 1-3 texts sharing fragments (adjacent fragments, sides listing them reversed / re-ordered, fragments re-ordered in the other text, three sides with two in one resource, zero-width fragments, overlapping fragments, gaps, both sides in one resource, a side spanning two resources, overlapping sides, simple transpositions with 2 and 3 sides, four ill-formed ones) x every resource as source x every single range 0<=b<=e<=len x TranspositionSide Auto / every index / one beyond x annotation with id / annotation without public id / text selection set, every single range also with the identifiers of the transposed annotations / the resegmentation left to the library (all of them, or all but the first target side), plus all ordered pairs of ranges over a position grid (every position in the thorough tier); random: texts over small alphabets (incl. multi-byte) cut into up to 5 fragments with gaps, now and then a zero-width or overlapping fragment, 1-2 derived texts (re-ordered, filler inserted, sometimes appended to the same resource), sides listed in random order, 1-3 source ranges of every position class (inside one fragment, between two fragments, partly outside, anywhere), multi-range sources as Directional, Multi or Composite selector. Half of the random cases leave identifiers to the library. Per case: transpose, every returned builder added with annotate() (all must be accepted as that many new annotations with pairwise distinct ids), new transposition read back through annotations_in_targets/textselections, store compared before/after transpose(), then every target side transposed back over the new transposition with ByIndex and with Auto. The property predicate (piecewise equal text on all sides, source side = the source cut into consecutive pieces, inside the text, right resources, coverage, unchanged store, exact offsets on the way back) is evaluated by the extracted specification on what the implementation returned; the model's answer is compared with the implementation's. Non-trivial = the forward transposition succeeded; distinct = distinct request lines.";
 
 pub const EXHAUSTIVE: bool = true;
